@@ -1,4 +1,5 @@
 import Proofs.Machine.HunkHeaders
+import Proofs.Machine.BodyText
 /-!
 Whole-run file headers (C14): for a git diff made of ordinary sections —
 `diff --git` line, index-like lines, `--- ` line, `+++ ` line, hunks — delta writes exactly one file
@@ -175,5 +176,860 @@ theorem diff_line_step {cfg : Cfg} (hc : FHC cfg) {m : M} {l : L} (h : Settled m
     rw [fileTL_congr this, fileTL_flushMP, fileTL_congr htl0]
   · show (flushMP m0).n + 1 = m.n + 1
     rw [flushMP_n, hn0]
+
+/-- what the handlers from `handle_hunk_header_line` on need to know about a line met in the header
+part of a section to decline it -/
+structure TailNo (l : L) : Prop where
+  hunkHeader : startsWith l.text Markers.hunkHeader = false
+  oldMode : startsWith l.text Markers.oldMode = false
+  newMode : startsWith l.text Markers.newMode = false
+  binary : startsWith l.text Markers.binaryFiles = false
+  submodule : startsWith l.text Markers.submoduleLog = false
+
+/-- the handlers after `handle_diff_header_plus_line`, in source order -/
+def tailNames : List String := Generated.handlerOrder.drop 6
+
+/-- in the header part of a git section such a line runs down to `should_skip_line`, which claims
+it: nothing is written -/
+theorem hdr_tail {cfg : Cfg} (hc : FHC cfg) (x : M) (l : L) (hst : x.st = .diffHeader .unified)
+    (hsrc : x.source = .gitDiff) (no : TailNo l) :
+    chain cfg l tailNames x = .ok (emit (emit (emit x))) := by
+  have hnm : isMergeConflict x.st = false := by rw [hst]; rfl
+  have hnc : hunkCombinedParents x.st = none := by rw [hst]; rfl
+  have e7 := handleHunkHeader_not_mine cfg x l no.hunkHeader
+  have e8 := handleModeLine_not_mine cfg x l no.oldMode no.newMode
+  have e9 : handleMisc cfg x l = .ok (false, x) := by
+    unfold handleMisc; simp [hsrc, no.binary]
+  have e10 := handleSubmoduleLog_not_mine cfg x l no.submodule
+  have e11 : handleSubmoduleShort cfg x l = .ok (false, x) := by
+    unfold handleSubmoduleShort submoduleShortTest
+    simp [hst, pairableHunkHeader]
+  have e12 := handleMergeConflict_not_mine cfg x l hnc hnm
+  have e13 : handleHunkLine cfg x l = .ok (false, x) := by unfold handleHunkLine; simp [hst, isHunkState]
+  have e15 : handleBlame cfg (emit x) l = .ok (false, emit (emit x)) := by
+    unfold handleBlame; simp [hst]
+  have e16 : handleGrep cfg (emit (emit x)) l = .ok (false, emit (emit (emit x))) := by
+    unfold handleGrep; simp [hst]
+  have e17 : handleShouldSkip cfg (emit (emit (emit x))) l = .ok (true, emit (emit (emit x))) := by
+    unfold handleShouldSkip shouldSkipLine
+    have hst3 : (emit (emit (emit x))).st = .diffHeader .unified := hst
+    rw [shouldHandle_diffHeader hc hst3, hst3]
+    simp [isDiffHeader, hc.notCO]
+  simp only [tailNames, Generated.handlerOrder, List.drop, chain, handlerOf, e7, e8, e9, e10, e11, e12, e13,
+    handleGitShowFile, e15, e16, e17]
+
+theorem chain_skip {cfg : Cfg} {l : L} {name : String} {rest : List String} {m m' : M} {h : Handler}
+    (hn : handlerOf name = some h) (e : h cfg m l = .ok (false, m')) :
+    chain cfg l (name :: rest) m = chain cfg l rest m' := by
+  simp only [chain, hn, e]
+
+theorem handlerOrder_split : Generated.handlerOrder =
+    "handle_commit_meta_header_line" :: "handle_diff_stat_line" :: "handle_diff_header_diff_line" ::
+    "handle_diff_header_file_operation_line" :: "handle_diff_header_minus_line" ::
+    "handle_diff_header_plus_line" :: tailNames := rfl
+
+theorem minusLineTest_false (m : M) {l : L} (h : startsWithAny l.text Markers.minusLine = false) :
+    minusLineTest m l = false := by
+  unfold minusLineTest
+  simp only [startsWithAny, Markers.minusLine, List.any_cons, List.any_nil, Bool.or_false, Bool.or_eq_false_iff] at h
+  obtain ⟨a, b, c⟩ := h
+  simp [Markers.minusLine, startsWithAny, a, b, c]
+
+/-- a line of the header part that is not the `--- ` / `+++ ` line: index, similarity … -/
+structure Noise (l : L) : Prop extends TailNo l where
+  commit : l.commitRe = false
+  diff : startsWith l.text Markers.diffLine = false
+  fileOp : startsWithAny l.text Markers.fileOperationLine = false
+  minus : startsWithAny l.text Markers.minusLine = false
+  plus : startsWithAny l.text Markers.plusLine = false
+
+theorem InHdr.emit3 {m : M} (h : InHdr m) (g : Good (emit (emit (emit m)))) : InHdr (emit (emit (emit m))) :=
+  ⟨h.st, h.src, h.cnt, h.mode, h.hp, h.minus, h.plus, g⟩
+
+theorem stepInit_git {m : M} (l : L) (h : m.source = .gitDiff) : stepInit m l = m := by
+  unfold stepInit; simp [h]
+
+/-- (B) an index-like line of the header part: skipped, nothing written -/
+theorem noise_line_step {cfg : Cfg} (hc : FHC cfg) {m : M} {l : L} (h : InHdr m) (hl : Noise l) :
+    ∃ m', step cfg m l = .ok m' ∧ InHdr m' ∧ fileTL m' = fileTL m ∧ m'.n = m.n + 1 ∧
+      m'.minusFile = m.minusFile ∧ m'.minusEvent = m.minusEvent ∧ m'.currentPair = m.currentPair := by
+  have hlt : headerLineTest m = true := by unfold headerLineTest; simp [h.st, isDiffHeader]
+  have e1 := handleCommitMeta_not_mine cfg m l hl.commit
+  have e2 : handleDiffStat cfg m l = .ok (false, m) := rfl
+  have e3 := handleDiffHeaderDiff_not_mine cfg m l hl.diff
+  have e4 := handleFileOperation_not_mine cfg m l (by simp [hl.fileOp])
+  have e5 := handleMinusLine_not_mine cfg m l (minusLineTest_false m hl.minus)
+  have e6 := handlePlusLine_not_mine cfg m l (by unfold plusLineTest; simp [hl.plus])
+  have ec : chain cfg l Generated.handlerOrder m = .ok (emit (emit (emit m))) := by
+    rw [handlerOrder_split, chain_skip (by rfl) e1, chain_skip (by rfl) e2, chain_skip (by rfl) e3, chain_skip (by rfl) e4,
+      chain_skip (by rfl) e5, chain_skip (by rfl) e6]
+    exact hdr_tail hc m l h.st h.src hl.toTailNo
+  have g3 : Good (emit (emit (emit m))) := (chain_step _ ec h.good).good
+  refine ⟨{ emit (emit (emit m)) with n := (emit (emit (emit m))).n + 1 }, ?_, ?_, ?_, rfl, rfl, rfl, rfl⟩
+  · unfold step; rw [stepInit_git l h.src, ec]
+  · exact ⟨h.st, h.src, h.cnt, h.mode, h.hp, h.minus, h.plus, ⟨g3.order, g3.quiet, g3.noPlus⟩⟩
+  · show fileTL (emit (emit (emit m))) = fileTL m
+    rw [fileTL_emit, fileTL_emit, fileTL_emit]
+
+/-- a `new file mode` / `deleted file mode` line -/
+def isFileOpLine (l : L) : Bool := startsWithAny l.text Markers.fileOperationLine && !l.commitRe
+
+theorem fileOpUpdate_keeps (m : M) (ev : FileEvent) (nm : Str) :
+    (fileOpUpdate m ev nm).st = m.st ∧ (fileOpUpdate m ev nm).source = m.source ∧
+    (fileOpUpdate m ev nm).counter = m.counter ∧ (fileOpUpdate m ev nm).modeInfo = m.modeInfo ∧
+    (fileOpUpdate m ev nm).handledPair = m.handledPair ∧ (fileOpUpdate m ev nm).minus = m.minus ∧
+    (fileOpUpdate m ev nm).plus = m.plus ∧ (fileOpUpdate m ev nm).n = m.n ∧
+    timeline (fileOpUpdate m ev nm) = timeline m := by
+  unfold fileOpUpdate; split <;> exact ⟨rfl, rfl, rfl, rfl, rfl, rfl, rfl, rfl, rfl⟩
+
+theorem fileOp_facts {l : L} (hfo : startsWithAny l.text Markers.fileOperationLine = true) :
+    startsWith l.text Markers.diffLine = false ∧ startsWithAny l.text Markers.minusLine = false ∧
+      startsWithAny l.text Markers.plusLine = false ∧ TailNo l := by
+  simp only [startsWithAny, Markers.fileOperationLine, List.any_cons, List.any_nil, Bool.or_false, Bool.or_eq_true] at hfo
+  rcases hfo with h1 | h1
+  · obtain ⟨rest, ht⟩ := startsWith_split h1
+    refine ⟨by simp [ht, startsWith, Markers.diffLine, List.isPrefixOf],
+      by simp [ht, startsWithAny, startsWith, Markers.minusLine, List.isPrefixOf],
+      by simp [ht, startsWithAny, startsWith, Markers.plusLine, List.isPrefixOf], ?_⟩
+    constructor <;> simp [ht, startsWith, Markers.hunkHeader, Markers.oldMode, Markers.newMode, Markers.binaryFiles,
+      Markers.submoduleLog, List.isPrefixOf]
+  · obtain ⟨rest, ht⟩ := startsWith_split h1
+    refine ⟨by simp [ht, startsWith, Markers.diffLine, List.isPrefixOf],
+      by simp [ht, startsWithAny, startsWith, Markers.minusLine, List.isPrefixOf],
+      by simp [ht, startsWithAny, startsWith, Markers.plusLine, List.isPrefixOf], ?_⟩
+    constructor <;> simp [ht, startsWith, Markers.hunkHeader, Markers.oldMode, Markers.newMode, Markers.binaryFiles,
+      Markers.submoduleLog, List.isPrefixOf]
+
+/-- (B') a `new file mode` / `deleted file mode` line of the header part: the names are pre-filled,
+nothing is written (the header stays pending) -/
+theorem fileop_line_step {cfg : Cfg} (hc : FHC cfg) {m : M} {l : L} (h : InHdr m) (hl : isFileOpLine l = true) :
+    ∃ m', step cfg m l = .ok m' ∧ InHdr m' ∧ fileTL m' = fileTL m ∧ m'.n = m.n + 1 := by
+  unfold isFileOpLine at hl
+  simp only [Bool.and_eq_true, Bool.not_eq_true'] at hl
+  obtain ⟨hfo, hcr⟩ := hl
+  obtain ⟨hdiff, hnm, hnp, no⟩ := fileOp_facts hfo
+  have hlt : headerLineTest m = true := by unfold headerLineTest; simp [h.st, isDiffHeader]
+  have e1 := handleCommitMeta_not_mine cfg m l hcr
+  have e2 : handleDiffStat cfg m l = .ok (false, m) := rfl
+  have e3 := handleDiffHeaderDiff_not_mine cfg m l hdiff
+  obtain ⟨y, hy⟩ : ∃ y, y = fileOpUpdate m (parseDiffHeaderLine l.text (decide (m.source = Source.gitDiff))).2
+      ((repeatedFilePath m.diffLine m.diffLineG).getD []) := ⟨_, rfl⟩
+  obtain ⟨k1, k2, k3, k4, k5, k6, k7, k8, k9⟩ := fileOpUpdate_keeps m (parseDiffHeaderLine l.text (decide (m.source = Source.gitDiff))).2
+      ((repeatedFilePath m.diffLine m.diffLineG).getD [])
+  rw [← hy] at k1 k2 k3 k4 k5 k6 k7 k8 k9
+  have hyst : y.st = .diffHeader .unified := k1.trans h.st
+  -- whether or not the handler claims the line, the rest of the chain writes nothing
+  have e4 : ∃ b, handleFileOperation cfg m l = .ok (b, y) := by
+    unfold handleFileOperation
+    simp only [hlt, hfo, Bool.and_self, Bool.not_true, Bool.false_eq_true, if_false]
+    rw [← hy]
+    unfold fileOpFinish shouldWriteGeneric
+    simp only [hc.notCO, Bool.false_eq_true, if_false]
+    exact ⟨_, rfl⟩
+  obtain ⟨b, e4⟩ := e4
+  have hfin : ∃ z, chain cfg l Generated.handlerOrder m = .ok z ∧ InHdr z ∧ fileTL z = fileTL m ∧ z.n = m.n := by
+    cases b with
+    | true =>
+      refine ⟨y, ?_, ?_, fileTL_congr k9, k8⟩
+      · rw [handlerOrder_split, chain_skip (by rfl) e1, chain_skip (by rfl) e2, chain_skip (by rfl) e3]
+        simp only [chain, handlerOf, e4]
+      · have ec : chain cfg l Generated.handlerOrder m = .ok y := by
+          rw [handlerOrder_split, chain_skip (by rfl) e1, chain_skip (by rfl) e2, chain_skip (by rfl) e3]
+          simp only [chain, handlerOf, e4]
+        have g := (chain_step _ ec h.good).good
+        exact ⟨hyst, k2.trans h.src, by rw [k3]; exact h.cnt, k4.trans h.mode, k5.trans h.hp, k6.trans h.minus, k7.trans h.plus, g⟩
+    | false =>
+      -- not claimed: the line runs down the rest of the chain like an index line
+      have e5 := handleMinusLine_not_mine cfg y l (minusLineTest_false y hnm)
+      have e6 := handlePlusLine_not_mine cfg y l (by unfold plusLineTest; simp [hnp])
+      have ec : chain cfg l Generated.handlerOrder m = .ok (emit (emit (emit y))) := by
+        rw [handlerOrder_split, chain_skip (by rfl) e1, chain_skip (by rfl) e2, chain_skip (by rfl) e3, chain_skip (by rfl) e4,
+          chain_skip (by rfl) e5, chain_skip (by rfl) e6]
+        exact hdr_tail hc y l hyst (k2.trans h.src) no
+      have g := (chain_step _ ec h.good).good
+      refine ⟨_, ec, ⟨hyst, k2.trans h.src, by show y.counter ≤ -4096; rw [k3]; exact h.cnt, k4.trans h.mode,
+        k5.trans h.hp, k6.trans h.minus, k7.trans h.plus, g⟩, ?_, k8⟩
+      rw [fileTL_emit, fileTL_emit, fileTL_emit]; exact fileTL_congr k9
+  obtain ⟨z, ec, hz, tz, nz⟩ := hfin
+  refine ⟨{ z with n := z.n + 1 }, ?_, ⟨hz.st, hz.src, hz.cnt, hz.mode, hz.hp, hz.minus, hz.plus,
+    ⟨hz.good.order, hz.good.quiet, hz.good.noPlus⟩⟩, tz, by show z.n + 1 = m.n + 1; rw [nz]⟩
+  unfold step; rw [stepInit_git l h.src, ec]
+
+/-- the `--- ` line of a section -/
+def isMinusLine (l : L) : Bool := startsWith l.text ['-', '-', '-', ' '] && !l.commitRe
+
+/-- the `+++ ` line of a section -/
+def isPlusLine (l : L) : Bool := startsWith l.text ['+', '+', '+', ' '] && !l.commitRe
+
+theorem threeDashes_of_le {c : Int} (h : c ≤ -4096) : threeDashesExpected c = true := by
+  unfold threeDashesExpected
+  split
+  · omega
+  · rfl
+
+theorem flushMP_keeps (y : M) : (flushMP y).counter = y.counter ∧ (flushMP y).handledPair = y.handledPair ∧
+    (flushMP y).currentPair = y.currentPair ∧ (flushMP y).minusFile = y.minusFile ∧ (flushMP y).minusEvent = y.minusEvent ∧
+    (flushMP y).plusFile = y.plusFile := by
+  unfold flushMP; split <;> exact ⟨rfl, rfl, rfl, rfl, rfl, rfl⟩
+
+/-- the bookkeeping of `handle_diff_header_minus_line` in a git diff -/
+def minusUpd (m : M) (l : L) : M :=
+  { m with minusFile := (parseDiffHeaderLine l.text true).1, minusEvent := (parseDiffHeaderLine l.text true).2 }
+
+/-- (C) the `--- ` line: the name and event of the old file are recorded, nothing is written -/
+theorem minus_line_step {cfg : Cfg} (hc : FHC cfg) {m : M} {l : L} (h : InHdr m) (hl : isMinusLine l = true) :
+    ∃ m', step cfg m l = .ok m' ∧ InHdr m' ∧ fileTL m' = fileTL m ∧ m'.n = m.n + 1 ∧
+      m'.minusFile = (parseDiffHeaderLine l.text true).1 ∧ m'.minusEvent = (parseDiffHeaderLine l.text true).2 := by
+  unfold isMinusLine at hl
+  simp only [Bool.and_eq_true, Bool.not_eq_true'] at hl
+  obtain ⟨hsw, hcr⟩ := hl
+  obtain ⟨rest, ht⟩ := startsWith_split hsw
+  have no : TailNo l := by
+    constructor <;> simp [ht, startsWith, Markers.hunkHeader, Markers.oldMode, Markers.newMode, Markers.binaryFiles,
+      Markers.submoduleLog, List.isPrefixOf]
+  have hdiff : startsWith l.text Markers.diffLine = false := by simp [ht, startsWith, Markers.diffLine, List.isPrefixOf]
+  have hfo : startsWithAny l.text Markers.fileOperationLine = false := by
+    simp [ht, startsWithAny, startsWith, Markers.fileOperationLine, List.isPrefixOf]
+  have hpl : startsWithAny l.text Markers.plusLine = false := by
+    simp [ht, startsWithAny, startsWith, Markers.plusLine, List.isPrefixOf]
+  have hlt : headerLineTest m = true := by unfold headerLineTest; simp [h.st, isDiffHeader]
+  have hgit : decide (m.source = Source.gitDiff) = true := by simp [h.src]
+  have hnu : (m.source = Source.diffUnified) = False := by simp [h.src]
+  have e1 := handleCommitMeta_not_mine cfg m l hcr
+  have e2 : handleDiffStat cfg m l = .ok (false, m) := rfl
+  have e3 := handleDiffHeaderDiff_not_mine cfg m l hdiff
+  have e4 := handleFileOperation_not_mine cfg m l (by simp [hfo])
+  have e5 : handleMinusLine cfg m l = .ok (false, flushMP (minusUpd m l)) := by
+    have htest : minusLineTest m l = true := by
+      unfold minusLineTest
+      simp [hlt, Markers.minusLine, hsw, threeDashes_of_le h.cnt]
+    unfold handleMinusLine shouldWriteGeneric
+    simp only [htest, Bool.not_true, Bool.false_eq_true, if_false, hc.notCO, hgit, hnu]
+    rfl
+  obtain ⟨x, hx⟩ : ∃ x, x = flushMP (minusUpd m l) := ⟨_, rfl⟩
+  rw [← hx] at e5
+  obtain ⟨k1, k2, k3, k4, k5, k6⟩ := flushMP_keeps (minusUpd m l)
+  rw [← hx] at k1 k2 k3 k4 k5 k6
+  have hxst : x.st = .diffHeader .unified := by rw [hx, flushMP_st]; exact h.st
+  have hxsrc : x.source = .gitDiff := by rw [hx, flushMP_source]; exact h.src
+  have hxmi : x.modeInfo = [] := by rw [hx, flushMP_modeInfo]; exact h.mode
+  have hxn : x.n = m.n := by rw [hx, flushMP_n]; rfl
+  have hxtl : fileTL x = fileTL m := by rw [hx, fileTL_flushMP]; exact fileTL_congr rfl
+  have e6 := handlePlusLine_not_mine cfg x l (by unfold plusLineTest; simp [hpl])
+  have ec : chain cfg l Generated.handlerOrder m = .ok (emit (emit (emit x))) := by
+    rw [handlerOrder_split, chain_skip (by rfl) e1, chain_skip (by rfl) e2, chain_skip (by rfl) e3, chain_skip (by rfl) e4,
+      chain_skip (by rfl) e5, chain_skip (by rfl) e6]
+    exact hdr_tail hc x l hxst hxsrc no
+  have g3 : Good (emit (emit (emit x))) := (chain_step _ ec h.good).good
+  refine ⟨{ emit (emit (emit x)) with n := (emit (emit (emit x))).n + 1 }, ?_, ?_, ?_, ?_, k4, k5⟩
+  · unfold step; rw [stepInit_git l h.src, ec]
+  · refine ⟨hxst, hxsrc, ?_, hxmi, ?_, ?_, ?_, ⟨g3.order, g3.quiet, g3.noPlus⟩⟩
+    · show x.counter ≤ -4096
+      rw [k1]; exact h.cnt
+    · show x.handledPair = none
+      rw [k2]; exact h.hp
+    · show x.minus = []
+      rw [hx]; simp
+    · show x.plus = []
+      rw [hx]; simp
+  · show fileTL (emit (emit (emit x))) = fileTL m
+    rw [fileTL_emit, fileTL_emit, fileTL_emit, hxtl]
+  · show x.n + 1 = m.n + 1
+    rw [hxn]
+
+theorem direct_keeps (y : M) (rows : List Row) : (direct y rows).counter = y.counter ∧
+    (direct y rows).handledPair = y.handledPair ∧ (direct y rows).currentPair = y.currentPair ∧
+    (direct y rows).minusFile = y.minusFile ∧ (direct y rows).minusEvent = y.minusEvent ∧
+    (direct y rows).plusFile = y.plusFile := by
+  unfold direct; split <;> exact ⟨rfl, rfl, rfl, rfl, rfl, rfl⟩
+
+/-- the header written, the pair recorded as handled (`handle_diff_header_plus_line`, second branch) -/
+def hdrWritten (cfg : Cfg) (y : M) : M :=
+  { handleHeaderLine cfg (emit y) (y.source = .diffUnified) with
+    handledPair := (handleHeaderLine cfg (emit y) (y.source = .diffUnified)).currentPair }
+
+theorem hdrWritten_spec {cfg : Cfg} (hc : FHC cfg) (y : M) (hsrc : y.source = .gitDiff) (hmi : y.modeInfo = [])
+    (hm : y.minus = []) (hp : y.plus = []) :
+    (hdrWritten cfg y).st = y.st ∧ (hdrWritten cfg y).source = y.source ∧ (hdrWritten cfg y).counter = y.counter ∧
+    (hdrWritten cfg y).modeInfo = [] ∧ (hdrWritten cfg y).handledPair = (hdrWritten cfg y).currentPair ∧
+    (hdrWritten cfg y).n = y.n ∧ (hdrWritten cfg y).minus = [] ∧ (hdrWritten cfg y).plus = [] ∧
+    fileTL (hdrWritten cfg y) = fileTL y ++
+      [{ kind := .file, text := fileRowText cfg (fileChangeDescription cfg.labels y.minusFile y.plusFile false y.minusEvent),
+         src := y.n }] := by
+  have hdu : decide (y.source = Source.diffUnified) = false := by simp [hsrc]
+  have hw : handleHeaderLine cfg (emit y) (decide (y.source = Source.diffUnified)) =
+      writeGeneric cfg (emit y) (fileChangeDescription cfg.labels y.minusFile y.plusFile false y.minusEvent)
+        (fileChangeDescription cfg.labels y.minusFile y.plusFile false y.minusEvent) := by
+    unfold handleHeaderLine; rw [hdu]; rfl
+  have hfile := writeGeneric_file hc (emit y) (fileChangeDescription cfg.labels y.minusFile y.plusFile false y.minusEvent)
+    (fileChangeDescription cfg.labels y.minusFile y.plusFile false y.minusEvent) hmi rfl hm hp
+  have hwg : ∀ t r : Str, (writeGeneric cfg (emit y) t r).counter = y.counter ∧ (writeGeneric cfg (emit y) t r).modeInfo = [] := by
+    intro t r
+    unfold writeGeneric
+    simp only [hc.notOmitted, hc.notCO, Bool.false_eq_true, false_and, if_false, not_false_eq_true]
+    exact ⟨(direct_keeps _ _).1, trivial⟩
+  unfold hdrWritten
+  rw [hw]
+  refine ⟨by simp, by simp, (hwg _ _).1, (hwg _ _).2, rfl, by simp, by simp [hm], by simp [hp], ?_⟩
+  have : fileTL { writeGeneric cfg (emit y) (fileChangeDescription cfg.labels y.minusFile y.plusFile false y.minusEvent)
+      (fileChangeDescription cfg.labels y.minusFile y.plusFile false y.minusEvent) with
+      handledPair := (writeGeneric cfg (emit y) (fileChangeDescription cfg.labels y.minusFile y.plusFile false y.minusEvent)
+      (fileChangeDescription cfg.labels y.minusFile y.plusFile false y.minusEvent)).currentPair } =
+      fileTL (writeGeneric cfg (emit y) (fileChangeDescription cfg.labels y.minusFile y.plusFile false y.minusEvent)
+      (fileChangeDescription cfg.labels y.minusFile y.plusFile false y.minusEvent)) := fileTL_congr rfl
+  rw [this, hfile, fileTL_emit]
+  rfl
+
+/-- in the header part after the `+++ ` line: the header has been written -/
+structure AfterPlus (m : M) : Prop where
+  st : m.st = .diffHeader .unified
+  src : m.source = .gitDiff
+  cnt : m.counter ≤ -4096
+  mode : m.modeInfo = []
+  pair : m.handledPair = m.currentPair
+  good : Good m
+
+theorem AfterPlus.settled {m : M} (h : AfterPlus m) : Settled m := ⟨Or.inl h.src, h.cnt, h.mode, h.pair, h.good⟩
+
+/-- the bookkeeping of `handle_diff_header_plus_line` in a git diff -/
+def plusUpd (m : M) (l : L) : M :=
+  { m with plusFile := (parseDiffHeaderLine l.text true).1, plusEvent := (parseDiffHeaderLine l.text true).2,
+           currentPair := some (m.minusFile, (parseDiffHeaderLine l.text true).1) }
+
+/-- the file-header row of a section: written at input line `n`, for the names and the event the
+`--- ` and `+++ ` lines carry -/
+def headerRow (cfg : Cfg) (minusFile : Str) (minusEvent : FileEvent) (pl : L) (n : Nat) : Row :=
+  { kind := .file,
+    text := fileRowText cfg (fileChangeDescription cfg.labels minusFile (parseDiffHeaderLine pl.text true).1 false minusEvent),
+    src := n }
+
+/-- (D) the `+++ ` line: exactly one file row is written, for this section's two names -/
+theorem plus_line_step {cfg : Cfg} (hc : FHC cfg) {m : M} {l : L} (h : InHdr m) (hl : isPlusLine l = true) :
+    ∃ m', step cfg m l = .ok m' ∧ AfterPlus m' ∧ m'.n = m.n + 1 ∧
+      fileTL m' = fileTL m ++ [headerRow cfg m.minusFile m.minusEvent l m.n] := by
+  unfold isPlusLine at hl
+  simp only [Bool.and_eq_true, Bool.not_eq_true'] at hl
+  obtain ⟨hsw, hcr⟩ := hl
+  obtain ⟨rest, ht⟩ := startsWith_split hsw
+  have no : TailNo l := by
+    constructor <;> simp [ht, startsWith, Markers.hunkHeader, Markers.oldMode, Markers.newMode, Markers.binaryFiles,
+      Markers.submoduleLog, List.isPrefixOf]
+  have hdiff : startsWith l.text Markers.diffLine = false := by simp [ht, startsWith, Markers.diffLine, List.isPrefixOf]
+  have hfo : startsWithAny l.text Markers.fileOperationLine = false := by
+    simp [ht, startsWithAny, startsWith, Markers.fileOperationLine, List.isPrefixOf]
+  have hmn : startsWithAny l.text Markers.minusLine = false := by
+    simp [ht, startsWithAny, startsWith, Markers.minusLine, List.isPrefixOf]
+  have hpl : startsWithAny l.text Markers.plusLine = true := by
+    simp [ht, startsWithAny, startsWith, Markers.plusLine, List.isPrefixOf]
+  have hgit : decide (m.source = Source.gitDiff) = true := by simp [h.src]
+  have e1 := handleCommitMeta_not_mine cfg m l hcr
+  have e2 : handleDiffStat cfg m l = .ok (false, m) := rfl
+  have e3 := handleDiffHeaderDiff_not_mine cfg m l hdiff
+  have e4 := handleFileOperation_not_mine cfg m l (by simp [hfo])
+  have e5 := handleMinusLine_not_mine cfg m l (minusLineTest_false m hmn)
+  obtain ⟨y, hy⟩ : ∃ y, y = flushMP (plusUpd m l) := ⟨_, rfl⟩
+  obtain ⟨k1, k2, k3, k4, k5, k6⟩ := flushMP_keeps (plusUpd m l)
+  rw [← hy] at k1 k2 k3 k4 k5 k6
+  have hyst : y.st = .diffHeader .unified := by rw [hy, flushMP_st]; exact h.st
+  have hysrc : y.source = .gitDiff := by rw [hy, flushMP_source]; exact h.src
+  have hymi : y.modeInfo = [] := by rw [hy, flushMP_modeInfo]; exact h.mode
+  have hyn : y.n = m.n := by rw [hy, flushMP_n]; rfl
+  have hytl : fileTL y = fileTL m := by rw [hy, fileTL_flushMP]; exact fileTL_congr rfl
+  have hym : y.minus = [] := by rw [hy]; simp
+  have hyp : y.plus = [] := by rw [hy]; simp
+  have hyhp : y.handledPair = none := by rw [k2]; exact h.hp
+  have hycp : y.currentPair = some (m.minusFile, (parseDiffHeaderLine l.text true).1) := by rw [k3]; rfl
+  have e6 : handlePlusLine cfg m l = .ok (false, hdrWritten cfg y) := by
+    have htest : plusLineTest m l = true := by unfold plusLineTest; simp [h.st, isDiffHeader, hpl]
+    have hsh : shouldHandle cfg y = true := shouldHandle_diffHeader hc hyst
+    unfold handlePlusLine
+    simp only [htest, Bool.not_true, Bool.false_eq_true, if_false, hgit]
+    change Except.ok (plusLineFinish cfg (flushMP (plusUpd m l)) l) = _
+    rw [← hy]
+    unfold plusLineFinish shouldWriteGeneric
+    simp only [hc.notCO, Bool.false_eq_true, if_false, hsh, hyhp, hycp, true_and]
+    simp only [ne_eq, reduceCtorEq, not_false_eq_true, if_true]
+    rfl
+  obtain ⟨s1, s2, s3, s4, s5, s6, s7, s8, s9⟩ := hdrWritten_spec hc y hysrc hymi hym hyp
+  obtain ⟨z, hz⟩ : ∃ z, z = hdrWritten cfg y := ⟨_, rfl⟩
+  rw [← hz] at e6 s1 s2 s3 s4 s5 s6 s7 s8 s9
+  have hzst : z.st = .diffHeader .unified := by rw [s1]; exact hyst
+  have hzsrc : z.source = .gitDiff := by rw [s2]; exact hysrc
+  have ec : chain cfg l Generated.handlerOrder m = .ok (emit (emit (emit z))) := by
+    rw [handlerOrder_split, chain_skip (by rfl) e1, chain_skip (by rfl) e2, chain_skip (by rfl) e3, chain_skip (by rfl) e4,
+      chain_skip (by rfl) e5, chain_skip (by rfl) e6]
+    exact hdr_tail hc z l hzst hzsrc no
+  have g3 : Good (emit (emit (emit z))) := (chain_step _ ec h.good).good
+  refine ⟨{ emit (emit (emit z)) with n := (emit (emit (emit z))).n + 1 }, ?_, ?_, ?_, ?_⟩
+  · unfold step; rw [stepInit_git l h.src, ec]
+  · refine ⟨hzst, hzsrc, ?_, s4, s5, ⟨g3.order, g3.quiet, g3.noPlus⟩⟩
+    show z.counter ≤ -4096
+    rw [s3, k1]; exact h.cnt
+  · show z.n + 1 = m.n + 1
+    rw [s6, hyn]
+  · show fileTL (emit (emit (emit z))) = _
+    rw [fileTL_emit, fileTL_emit, fileTL_emit, s9, hytl, k4, k5, k6, hyn]
+    rfl
+
+-- the hunks of a section ---------------------------------------------------------------
+
+theorem hunkHeaderRows_nofile {cfg : Cfg} {m1 : M} {hh : HunkHeader} {line raw : Str} {src : Nat} {rows : List Row}
+    (e : hunkHeaderRows cfg m1 hh line raw src = .ok rows) : ∀ x ∈ rows, x.kind ≠ .file := by
+  have hd : ∀ (st : ElemStyle) (t r a : Str), ∀ x ∈ drawRows st .hunkHeader t r a src, x.kind ≠ .file := by
+    intro st t r a x hx
+    unfold drawRows at hx
+    cases hdeco : st.deco <;> cases hraw : st.isRaw <;> simp [hdeco, hraw] at hx
+    all_goals (first | (rcases hx with h | h | h <;> subst h <;> simp) | (rcases hx with h | h <;> subst h <;> simp) | (subst hx; simp))
+  unfold hunkHeaderRows at e
+  simp only at e
+  split at e
+  · cases e
+    intro x hx
+    simp only [List.mem_append] at hx
+    rcases hx with hx | hx
+    · split at hx
+      · simp at hx; subst hx; simp
+      · simp at hx
+    · exact hd _ _ _ _ x hx
+  · split at e
+    · cases e; intro x hx; simp at hx; subst hx; simp
+    · split at e
+      · cases e
+      · cases e
+        intro x hx
+        split at hx
+        · simp at hx
+        · simp at hx; subst hx; simp
+      · cases e
+        intro x hx
+        simp only [List.mem_append] at hx
+        rcases hx with hx | hx
+        · split at hx
+          · simp at hx
+          · simp at hx; subst hx; simp
+        · exact hd _ _ _ _ x hx
+
+/-- fields that the hunk-line handler leaves alone (the counter may only go down) -/
+structure Keep (m m' : M) : Prop where
+  src : m'.source = m.source
+  mode : m'.modeInfo = m.modeInfo
+  hp : m'.handledPair = m.handledPair
+  cp : m'.currentPair = m.currentPair
+  cnt : m'.counter ≤ m.counter
+
+theorem Keep.refl (m : M) : Keep m m := ⟨rfl, rfl, rfl, rfl, Int.le_refl _⟩
+theorem Keep.trans {a b c : M} (h1 : Keep a b) (h2 : Keep b c) : Keep a c :=
+  ⟨h2.src.trans h1.src, h2.mode.trans h1.mode, h2.hp.trans h1.hp, h2.cp.trans h1.cp, Int.le_trans h2.cnt h1.cnt⟩
+theorem Keep.flushMP (m : M) : Keep m (flushMP m) := by
+  obtain ⟨k1, k2, k3, _, _, _⟩ := flushMP_keeps m
+  exact ⟨flushMP_source m, flushMP_modeInfo m, k2, k3, by rw [k1]; exact Int.le_refl _⟩
+theorem Keep.emit (m : M) : Keep m (emit m) := ⟨rfl, rfl, rfl, rfl, Int.le_refl _⟩
+theorem Keep.direct (m : M) (rows : List Row) : Keep m (direct m rows) := by
+  obtain ⟨k1, k2, k3, _, _, _⟩ := direct_keeps m rows
+  exact ⟨direct_source m rows, direct_modeInfo m rows, k2, k3, by rw [k1]; exact Int.le_refl _⟩
+
+theorem hunkLinePre_keep {cfg : Cfg} {m m' : M} (e : hunkLinePre cfg m = .ok m') :
+    Keep m m' ∧ ∃ pre, timeline m' = timeline m ++ pre ∧ ∀ x ∈ pre, x.kind ≠ .file := by
+  unfold hunkLinePre at e
+  simp only at e
+  have k1 : Keep m (if m.minus.length > cfg.bufSize ∨ m.plus.length > cfg.bufSize then flushMP m else m) := by
+    split
+    · exact Keep.flushMP m
+    · exact Keep.refl m
+  have ht : timeline (if m.minus.length > cfg.bufSize ∨ m.plus.length > cfg.bufSize then flushMP m else m) = timeline m := by
+    split
+    · exact timeline_flushMP m
+    · rfl
+  split at e
+  · unfold emitHunkHeader at e
+    split at e
+    · cases e
+    · rename_i rows hr
+      cases e
+      refine ⟨k1.trans (((Keep.flushMP _).trans (Keep.emit _)).trans (Keep.direct _ _)), rows, ?_, hunkHeaderRows_nofile hr⟩
+      rw [timeline_direct_flushed, ht]
+  · cases e
+    exact ⟨k1, [], by simp [ht], by simp⟩
+
+/-- the second part of `handle_hunk_line` on a marker line of a unified hunk -/
+theorem hunkLinePush_unified_keep {cfg : Cfg} {m m' : M} {l : L} (hdt : hunkDiffType m.st = some .unified)
+    (hb : firstIs l isMarker) (e : hunkLinePush cfg m l = .ok m') :
+    Keep m m' ∧ isHunkState m'.st = true ∧ hunkDiffType m'.st = some .unified := by
+  have hn : newLineState m.st l = .ok (classifyUnified l) := by unfold newLineState; rw [hdt]
+  unfold hunkLinePush at e
+  rcases classifyUnified_of_marker hb with ⟨_, hcl⟩ | ⟨_, hcl⟩ | ⟨_, hcl⟩
+  · simp only [hn, hcl, nParents] at e
+    cases e
+    refine ⟨?_, rfl, rfl⟩
+    split
+    · obtain ⟨a, b, c, d, f⟩ := Keep.flushMP m
+      exact ⟨a, b, c, d, by show (flushMP m).counter - 1 ≤ m.counter; omega⟩
+    · exact ⟨rfl, rfl, rfl, rfl, by show m.counter - 1 ≤ m.counter; omega⟩
+  · simp only [hn, hcl, nParents] at e
+    cases e
+    exact ⟨⟨rfl, rfl, rfl, rfl, Int.le_refl _⟩, rfl, rfl⟩
+  · simp only [hn, hcl, nParents] at e
+    cases e
+    obtain ⟨a, b, c, d, f⟩ := Keep.flushMP m
+    exact ⟨⟨a, b, c, d, by show (flushMP m).counter - 1 ≤ m.counter; omega⟩, rfl, rfl⟩
+
+/-- inside the hunks of a section of a unified git diff: header written, nothing pending -/
+structure InHunk (m : M) : Prop where
+  st : isHunkState m.st = true
+  dt : hunkDiffType m.st = some .unified
+  src : m.source = .gitDiff
+  cnt : m.counter ≤ -4096
+  mode : m.modeInfo = []
+  pair : m.handledPair = m.currentPair
+  good : Good m
+
+theorem InHunk.settled {m : M} (h : InHunk m) : Settled m := ⟨Or.inl h.src, h.cnt, h.mode, h.pair, h.good⟩
+
+/-- a hunk-header line of a section -/
+def isHHLineG (l : L) : Bool := isHHLine l && !l.commitRe
+
+theorem hunkHeaderDiffType_unified {m : M} (l : L)
+    (hs : m.st = .diffHeader .unified ∨ (isHunkState m.st = true ∧ hunkDiffType m.st = some .unified)) :
+    hunkHeaderDiffType m l = .unified := by
+  unfold hunkHeaderDiffType
+  rcases hs with hs | ⟨hs, hdt⟩
+  · rw [hs]
+  · cases hst : m.st with
+    | hunkHeader dt hh line raw src => rfl
+    | hunkMinus dt =>
+      rw [hst] at hdt
+      cases dt with
+      | unified => rfl
+      | combined mp c => cases mp <;> cases c <;> simp [hunkDiffType] at hdt
+    | hunkZero dt =>
+      rw [hst] at hdt
+      cases dt with
+      | unified => rfl
+      | combined mp c => cases mp <;> cases c <;> simp [hunkDiffType] at hdt
+    | hunkPlus dt =>
+      rw [hst] at hdt
+      cases dt with
+      | unified => rfl
+      | combined mp c => cases mp <;> cases c <;> simp [hunkDiffType] at hdt
+    | _ => simp [hst, isHunkState] at hs
+
+/-- (E) a hunk-header line, after the `+++ ` line or inside the hunks: the header becomes pending,
+no file row is written -/
+theorem hh_line_step {cfg : Cfg} {m : M} {l : L}
+    (hs : m.st = .diffHeader .unified ∨ (isHunkState m.st = true ∧ hunkDiffType m.st = some .unified))
+    (hsrc : m.source = .gitDiff) (hcnt : m.counter ≤ -4096) (hmode : m.modeInfo = [])
+    (hpair : m.handledPair = m.currentPair) (g : Good m) (hl : isHHLineG l = true) :
+    ∃ m', step cfg m l = .ok m' ∧ InHunk m' ∧ fileTL m' = fileTL m ∧ m'.n = m.n + 1 := by
+  unfold isHHLineG at hl
+  simp only [Bool.and_eq_true, Bool.not_eq_true'] at hl
+  obtain ⟨hhl, hcr⟩ := hl
+  have hhl' := hhl
+  unfold isHHLine at hhl'
+  simp only [Bool.and_eq_true] at hhl'
+  obtain ⟨hsw, hparse⟩ := hhl'
+  obtain ⟨rest, ht⟩ := text_of_hh hsw
+  have hnm : isMergeConflict m.st = false := by
+    rcases hs with hs | ⟨hs, _⟩
+    · rw [hs]; rfl
+    · cases hst : m.st <;> simp [hst, isHunkState, isMergeConflict] at hs ⊢
+  have e1 := handleCommitMeta_not_mine cfg m l hcr
+  have e2 : handleDiffStat cfg m l = .ok (false, m) := rfl
+  have e3 := handleDiffHeaderDiff_not_mine cfg m l (startsWith_false_of_head ht (d := 'd') rfl (by decide))
+  have e4 := handleFileOperation_not_mine cfg m l
+    (by simp [startsWithAny, Generated.Markers.fileOperationLine, startsWith, ht, List.isPrefixOf])
+  have e5 := handleMinusLine_not_mine cfg m l
+    (by simp [minusLineTest, startsWithAny, Generated.Markers.minusLine, startsWith, ht, List.isPrefixOf])
+  have e6 := handlePlusLine_not_mine cfg m l
+    (by simp [plusLineTest, startsWithAny, Generated.Markers.plusLine, startsWith, ht, List.isPrefixOf])
+  cases hp : parseHunkHeader l.text with
+  | none => rw [hp] at hparse; cases hparse
+  | some hh =>
+    have hcounter : hunkHeaderCounter m hh = m.counter := by
+      unfold hunkHeaderCounter
+      have : ¬ (m.counter > -4096) := by omega
+      simp [this]
+    have e7 : handleHunkHeader cfg m l =
+        .ok (true, { m with counter := m.counter, st := .hunkHeader .unified hh l.text l.raw m.n }) := by
+      unfold handleHunkHeader
+      simp only [hsw, hnm, Bool.not_false, Bool.and_self, Bool.not_true, Bool.false_eq_true, if_false, hp, hcounter,
+        hunkHeaderDiffType_unified l hs]
+    have ec : chain cfg l Generated.handlerOrder m =
+        .ok { m with counter := m.counter, st := .hunkHeader .unified hh l.text l.raw m.n } := by
+      rw [handlerOrder_split, chain_skip (by rfl) e1, chain_skip (by rfl) e2, chain_skip (by rfl) e3, chain_skip (by rfl) e4,
+        chain_skip (by rfl) e5, chain_skip (by rfl) e6]
+      simp only [tailNames, Generated.handlerOrder, List.drop, chain, handlerOf, e7]
+    have g' := (chain_step _ ec g).good
+    refine ⟨{ m with counter := m.counter, st := .hunkHeader .unified hh l.text l.raw m.n, n := m.n + 1 }, ?_, ?_, ?_, rfl⟩
+    · unfold step; rw [stepInit_git l hsrc, ec]
+    · exact ⟨rfl, rfl, hsrc, hcnt, hmode, hpair, ⟨g'.order, g'.quiet, g'.noPlus⟩⟩
+    · exact fileTL_congr rfl
+
+/-- a line of a hunk: marker column `-`, `+` or blank; not a commit line, not a `Subproject commit` line -/
+def BodyL (l : L) : Prop := firstIs l isMarker ∧ l.commitRe = false ∧ l.submodule = none
+
+/-- (F) a hunk line inside the hunks of a section: no file row is written -/
+theorem body_line_step {cfg : Cfg} {m : M} {l : L} (h : InHunk m) (hl : BodyL l) (hok : ∃ x, step cfg m l = .ok x) :
+    ∃ m', step cfg m l = .ok m' ∧ InHunk m' ∧ fileTL m' = fileTL m ∧ m'.n = m.n + 1 := by
+  obtain ⟨hb, hc, hsub⟩ := hl
+  have hun : hunkCombinedParents m.st = none := by
+    have hdt := h.dt
+    cases hs : m.st with
+    | hunkHeader dt hh line raw src =>
+      rw [hs] at hdt
+      cases dt with
+      | unified => rfl
+      | combined mp c => cases mp <;> cases c <;> simp [hunkDiffType] at hdt
+    | hunkMinus dt =>
+      rw [hs] at hdt
+      cases dt with
+      | unified => rfl
+      | combined mp c => cases mp <;> cases c <;> simp [hunkDiffType] at hdt
+    | hunkZero dt =>
+      rw [hs] at hdt
+      cases dt with
+      | unified => rfl
+      | combined mp c => cases mp <;> cases c <;> simp [hunkDiffType] at hdt
+    | hunkPlus dt =>
+      rw [hs] at hdt
+      cases dt with
+      | unified => rfl
+      | combined mp c => cases mp <;> cases c <;> simp [hunkDiffType] at hdt
+    | _ => rfl
+  obtain ⟨x, ex⟩ := hok
+  have ex' := ex
+  unfold step at ex'
+  rw [stepInit_git l h.src, hunk_body_line_claimed cfg m l h.src h.st hun hb hc hsub] at ex'
+  cases hh : handleHunkLine cfg m l with
+  | error err => simp [hh] at ex'
+  | ok p =>
+    obtain ⟨b, m2⟩ := p
+    simp only [hh] at ex'
+    cases ex'
+    -- inside `handle_hunk_line`
+    have hh' := hh
+    unfold handleHunkLine at hh'
+    simp only [h.st, Bool.not_true, Bool.false_eq_true, if_false] at hh'
+    cases e2 : hunkLinePre cfg m with
+    | error err => simp [e2] at hh'
+    | ok ma =>
+      simp only [e2] at hh'
+      cases e3 : hunkLinePush cfg ma l with
+      | error err => simp [e3] at hh'
+      | ok mb =>
+        simp only [e3] at hh'
+        cases hh'
+        obtain ⟨r2, hst2, hhdr, _, _⟩ := hunkLinePre_spec e2 h.good
+        obtain ⟨k2, pre, htl2, hnf⟩ := hunkLinePre_keep e2
+        have hdt2 : hunkDiffType ma.st = some .unified := by rw [hst2]; exact h.dt
+        obtain ⟨k3, hst3, hdt3⟩ := hunkLinePush_unified_keep hdt2 hb e3
+        have hplus : isHunkPlus ma.st = false → ma.plus = [] := by
+          intro hnp
+          rw [hst2] at hnp
+          rcases isHunkState_cases h.st with hq | ⟨dt, hq⟩ | ⟨dt, hq⟩ | ⟨dt, hq⟩
+          · exact (hhdr hq).2
+          · have := (h.good.quiet (by rw [hq]; rfl)).2
+            rcases r2.shrink.2 with s | s <;> simp [s, this]
+          · have := h.good.noPlus (by rw [hq]; rfl)
+            rcases r2.shrink.2 with s | s <;> simp [s, this]
+          · rw [hq] at hnp; simp [isHunkPlus] at hnp
+        have htl3 := hunkLinePush_unified hdt2 hb e3 hplus
+        have k := k2.trans k3
+        have gx := (step_spec ex h.good).1
+        refine ⟨_, ex, ⟨hst3, hdt3, k.src.trans h.src, Int.le_trans k.cnt h.cnt, k.mode.trans h.mode,
+          by show mb.handledPair = mb.currentPair; rw [k.hp, k.cp]; exact h.pair, gx⟩, ?_, ?_⟩
+        · show fileTL (emit mb) = fileTL m
+          rw [fileTL_emit]
+          unfold fileTL
+          rw [htl3, htl2, List.filter_append, List.filter_append]
+          have h1 : pre.filter (fun r => r.kind == .file) = [] := by
+            rw [List.filter_eq_nil_iff]
+            intro r hr; simp [hnf r hr]
+          have h2 : [expectedRow cfg l ma.n].filter (fun r => r.kind == .file) = [] := by
+            have := expectedRow_body cfg l ma.n
+            cases hk : (expectedRow cfg l ma.n).kind <;> simp_all [isBody]
+          rw [h1, h2]; simp
+        · exact (step_spec ex h.good).2.2.2
+
+-- sections -----------------------------------------------------------------------------
+
+/-- an ordinary section of a git diff -/
+structure Sec where
+  d : L
+  noise : List L
+  mi : L
+  pl : L
+  hunks : List L
+
+def Sec.lines (s : Sec) : List L := s.d :: (s.noise ++ (s.mi :: s.pl :: s.hunks))
+
+/-- `diff --git` line; index-like and `new file mode` / `deleted file mode` lines; `--- ` line; `+++ ` line; hunk-header lines and hunk lines,
+the first of which is a hunk-header line -/
+structure Sec.WF (s : Sec) : Prop where
+  d : isDiffGitLine s.d = true
+  noise : ∀ x ∈ s.noise, Noise x ∨ isFileOpLine x = true
+  mi : isMinusLine s.mi = true
+  pl : isPlusLine s.pl = true
+  hunks : ∀ x ∈ s.hunks, isHHLineG x = true ∨ BodyL x
+  first : ∀ x, s.hunks.head? = some x → isHHLineG x = true
+
+/-- the file-header row of section `s` when its `diff --git` line is input line `k` -/
+def Sec.row (cfg : Cfg) (s : Sec) (k : Nat) : Row :=
+  headerRow cfg (parseDiffHeaderLine s.mi.text true).1 (parseDiffHeaderLine s.mi.text true).2 s.pl (k + s.noise.length + 2)
+
+theorem runFrom_cons_ok {cfg : Cfg} {m mf : M} {l : L} {ls : List L} (e : runFrom cfg m (l :: ls) = .ok mf) :
+    ∃ m1, step cfg m l = .ok m1 ∧ runFrom cfg m1 ls = .ok mf := by
+  simp only [runFrom] at e
+  split at e
+  · cases e
+  · rename_i m1 e1; exact ⟨m1, e1, e⟩
+
+theorem noise_run {cfg : Cfg} (hc : FHC cfg) : ∀ (ls : List L) {m mf : M}, InHdr m →
+    (∀ x ∈ ls, Noise x ∨ isFileOpLine x = true) →
+    runFrom cfg m ls = .ok mf →
+    InHdr mf ∧ fileTL mf = fileTL m ∧ mf.n = m.n + ls.length
+  | [], m, mf, h, _, e => by simp only [runFrom] at e; cases e; exact ⟨h, rfl, rfl⟩
+  | l :: ls, m, mf, h, hn, e => by
+    obtain ⟨m1, e1, er⟩ := runFrom_cons_ok e
+    have hstep : ∃ m1', step cfg m l = .ok m1' ∧ InHdr m1' ∧ fileTL m1' = fileTL m ∧ m1'.n = m.n + 1 := by
+      rcases hn l (List.mem_cons_self ..) with hx | hx
+      · obtain ⟨m1', e1', h1, t1, n1, _, _, _⟩ := noise_line_step hc h hx
+        exact ⟨m1', e1', h1, t1, n1⟩
+      · exact fileop_line_step hc h hx
+    obtain ⟨m1', e1', h1, t1, n1⟩ := hstep
+    rw [e1] at e1'; cases e1'
+    obtain ⟨h2, t2, n2⟩ := noise_run hc ls h1 (fun x hx => hn x (List.mem_cons_of_mem _ hx)) er
+    exact ⟨h2, t2.trans t1, by rw [n2, n1, List.length_cons]; omega⟩
+
+theorem hunks_run {cfg : Cfg} : ∀ (ls : List L) {m mf : M}, InHunk m → (∀ x ∈ ls, isHHLineG x = true ∨ BodyL x) →
+    runFrom cfg m ls = .ok mf →
+    InHunk mf ∧ fileTL mf = fileTL m ∧ mf.n = m.n + ls.length
+  | [], m, mf, h, _, e => by simp only [runFrom] at e; cases e; exact ⟨h, rfl, rfl⟩
+  | l :: ls, m, mf, h, hl, e => by
+    obtain ⟨m1, e1, er⟩ := runFrom_cons_ok e
+    have hstep : ∃ m1', step cfg m l = .ok m1' ∧ InHunk m1' ∧ fileTL m1' = fileTL m ∧ m1'.n = m.n + 1 := by
+      rcases hl l (List.mem_cons_self ..) with hh | hb
+      · exact hh_line_step (Or.inr ⟨h.st, h.dt⟩) h.src h.cnt h.mode h.pair h.good hh
+      · exact body_line_step h hb ⟨m1, e1⟩
+    obtain ⟨m1', e1', h1, t1, n1⟩ := hstep
+    rw [e1] at e1'; cases e1'
+    obtain ⟨h2, t2, n2⟩ := hunks_run ls h1 (fun x hx => hl x (List.mem_cons_of_mem _ hx)) er
+    exact ⟨h2, t2.trans t1, by rw [n2, n1, List.length_cons]; omega⟩
+
+/-- one section: exactly one file row, written at its `+++ ` line -/
+theorem sec_run {cfg : Cfg} (hc : FHC cfg) (s : Sec) (w : s.WF) {m mf : M} (h : Settled m)
+    (e : runFrom cfg m s.lines = .ok mf) :
+    Settled mf ∧ fileTL mf = fileTL m ++ [s.row cfg m.n] ∧ mf.n = m.n + s.lines.length := by
+  unfold Sec.lines at e
+  obtain ⟨m1, e1, er1⟩ := runFrom_cons_ok e
+  obtain ⟨m1', e1', h1, t1, n1⟩ := diff_line_step hc h w.d
+  rw [e1] at e1'; cases e1'
+  rw [runFrom_append] at er1
+  cases e2 : runFrom cfg m1 s.noise with
+  | error err => simp [e2] at er1
+  | ok m2 =>
+    simp only [e2] at er1
+    obtain ⟨h2, t2, n2⟩ := noise_run hc s.noise h1 w.noise e2
+    obtain ⟨m3, e3, er3⟩ := runFrom_cons_ok er1
+    obtain ⟨m3', e3', h3, t3, n3, mf3, me3⟩ := minus_line_step hc h2 w.mi
+    rw [e3] at e3'; cases e3'
+    obtain ⟨m4, e4, er4⟩ := runFrom_cons_ok er3
+    obtain ⟨m4', e4', h4, n4, t4⟩ := plus_line_step hc h3 w.pl
+    rw [e4] at e4'; cases e4'
+    have hrow : headerRow cfg m3.minusFile m3.minusEvent s.pl m3.n = s.row cfg m.n := by
+      unfold Sec.row
+      rw [mf3, me3, n3, n2, n1]
+      congr 1
+      omega
+    have hlen : (s.d :: (s.noise ++ s.mi :: s.pl :: s.hunks)).length = s.noise.length + s.hunks.length + 3 := by
+      simp only [List.length_cons, List.length_append]; omega
+    cases hh : s.hunks with
+    | nil =>
+      rw [hh] at er4
+      simp only [runFrom] at er4
+      cases er4
+      refine ⟨h4.settled, ?_, ?_⟩
+      · rw [t4, t3, t2, t1, hrow]
+      · show mf.n = m.n + (s.d :: (s.noise ++ s.mi :: s.pl :: s.hunks)).length
+        rw [hlen, hh, n4, n3, n2, n1]; simp; omega
+    | cons x xs =>
+      rw [hh] at er4
+      obtain ⟨m5, e5, er5⟩ := runFrom_cons_ok er4
+      have hx : isHHLineG x = true := w.first x (by rw [hh]; rfl)
+      obtain ⟨m5', e5', h5, t5, n5⟩ := hh_line_step (cfg := cfg) (Or.inl h4.st) h4.src h4.cnt h4.mode h4.pair h4.good hx
+      rw [e5] at e5'; cases e5'
+      obtain ⟨h6, t6, n6⟩ := hunks_run xs h5 (fun y hy => w.hunks y (by rw [hh]; exact List.mem_cons_of_mem _ hy)) er5
+      refine ⟨h6.settled, ?_, ?_⟩
+      · rw [t6, t5, t4, t3, t2, t1, hrow]
+      · show mf.n = m.n + (s.d :: (s.noise ++ s.mi :: s.pl :: s.hunks)).length
+        rw [hlen, hh, n6, n5, n4, n3, n2, n1]; simp; omega
+
+/-- the file rows of a list of sections whose first line is input line `k` -/
+def rowsOf (cfg : Cfg) : Nat → List Sec → List Row
+  | _, [] => []
+  | k, s :: ss => s.row cfg k :: rowsOf cfg (k + s.lines.length) ss
+
+def linesOf (secs : List Sec) : List L := secs.flatMap Sec.lines
+
+theorem secs_run {cfg : Cfg} (hc : FHC cfg) : ∀ (secs : List Sec) {m mf : M}, (∀ s ∈ secs, s.WF) → Settled m →
+    runFrom cfg m (linesOf secs) = .ok mf →
+    Settled mf ∧ fileTL mf = fileTL m ++ rowsOf cfg m.n secs
+  | [], m, mf, _, h, e => by
+    simp only [linesOf, List.flatMap_nil, runFrom] at e; cases e; exact ⟨h, by simp [rowsOf]⟩
+  | s :: ss, m, mf, w, h, e => by
+    have hl : linesOf (s :: ss) = s.lines ++ linesOf ss := by simp [linesOf]
+    rw [hl, runFrom_append] at e
+    cases e1 : runFrom cfg m s.lines with
+    | error err => simp [e1] at e
+    | ok m1 =>
+      simp only [e1] at e
+      obtain ⟨h1, t1, n1⟩ := sec_run hc s (w s (List.mem_cons_self ..)) h e1
+      obtain ⟨h2, t2⟩ := secs_run hc ss (fun x hx => w x (List.mem_cons_of_mem _ hx)) h1 e
+      exact ⟨h2, by rw [t2, t1, n1]; simp [rowsOf]⟩
+
+theorem settled_init : Settled ({} : M) := ⟨Or.inr ⟨rfl, rfl⟩, by decide, rfl, rfl, good_init⟩
+
+/-- **One file header per section** (whole runs). For every configuration in which the file header
+is a row of its own (not color-only, file style neither raw nor omitted) and every git diff made
+of ordinary sections — `diff --git` line, index-like lines, `--- ` line, `+++ ` line, hunks — the
+file-header rows of delta's output are, in order, exactly one per section: the row written at the
+section's `+++ ` line, carrying the description of that section's two names. -/
+theorem run_one_file_row_per_section {cfg : Cfg} (hc : FHC cfg) (secs : List Sec) (w : ∀ s ∈ secs, s.WF) {m : M}
+    (e : run cfg (linesOf secs) = .ok m) :
+    m.out.filter (fun r => r.kind == .file) = rowsOf cfg 0 secs := by
+  have hout := (run_spec e).2
+  unfold run at e
+  split at e
+  · cases e
+  · rename_i m1 e1
+    obtain ⟨h1, t1⟩ := secs_run hc secs w settled_init e1
+    -- the statements after the loop write no file row: nothing is pending
+    have hfin : ∀ (ops : List String) (x x' : M), x.modeInfo = [] → x.handledPair = x.currentPair →
+        tailOps cfg ops x = .ok x' → fileTL x' = fileTL x := by
+      intro ops
+      induction ops with
+      | nil => intro x x' _ _ ex; simp only [tailOps] at ex; cases ex; rfl
+      | cons op rest ih =>
+        intro x x' hmi hpr ex
+        simp only [tailOps] at ex
+        split at ex
+        · cases ex
+        · rename_i x1 ex1
+          have hstep : x1.modeInfo = [] ∧ x1.handledPair = x1.currentPair ∧ fileTL x1 = fileTL x := by
+            unfold tailOp at ex1
+            split at ex1
+            · cases ex1
+              obtain ⟨_, k2, k3, _, _, _⟩ := flushMP_keeps x
+              exact ⟨by rw [flushMP_modeInfo]; exact hmi, by rw [k2, k3]; exact hpr, fileTL_flushMP x⟩
+            · cases ex1
+              rw [pendingDiffName_settled hc x hmi hpr]
+              exact ⟨hmi, hpr, rfl⟩
+            · cases ex1
+              exact ⟨hmi, hpr, fileTL_emit x⟩
+            · cases ex1
+          exact (ih x1 x' hstep.1 hstep.2.1 ex).trans hstep.2.2
+    have hf := hfin _ m1 m h1.mode h1.pair e
+    have : m.out.filter (fun r => r.kind == .file) = fileTL m := by rw [← hout]; rfl
+    rw [this, hf, t1]
+    simp [fileTL, timeline]
 
 end Machine
